@@ -4,9 +4,11 @@
 set -u
 export GOFLAGS=-mod=mod GOPROXY=off GOSUMDB=off GOTOOLCHAIN=local
 ID=$1; PROP=$2; PKG=$3; WT=$4; OUT=$WT.out
+[ -d "$WT/.git" ] || [ -f "$WT/.git" ] || { echo "no such worktree: $WT"; exit 1; }
+[ -f "$OUT/patch.diff" ] || { echo "no patch in $OUT"; exit 1; }
 D=/verif/seeded/$ID; mkdir -p $D
 cp $OUT/patch.diff $D/patch.diff; cp $OUT/*_test.go $D/ 2>/dev/null; cp $OUT/notes.md $D/agent_notes.md 2>/dev/null
-cd $WT
+cd $WT || exit 1
 git checkout -q -- . ; git apply $D/patch.diff || { echo "PATCH DOES NOT APPLY"; exit 1; }
 cp $D/zz_demo_test.go $WT/$PKG/ 2>/dev/null
 BUILD=$(go build ./... 2>&1 | tail -2)
